@@ -8,6 +8,7 @@ CONSTANTS
   MaxWrite = 1
   Validates = {FALSE, TRUE}
   SetClass = "all"
+  UpdEnabled = {TRUE}
   Deviations = {"NoneMemberAsText"}
 VIEW vw
 INVARIANT NoViolation
